@@ -171,7 +171,8 @@ pub fn run(args: &Args) -> i32 {
         let mut case = 0u32;
         for n in 1..=ncalls {
             faults.fetch_add(1, Ordering::Relaxed);
-            for (fk, f) in follow.iter().enumerate() {
+            // thorough: all follow-ups after histories of one step, the first two after depth-2 histories
+            for (fk, f) in follow.iter().enumerate().take(if hist.is_empty() { follow.len() } else { 2 }) {
                 if let Some((on, of)) = only {
                     if on != n || of != *f {
                         continue;
